@@ -46,6 +46,17 @@ Definition divide_funds (full_amount n : Z) : outcome (list (Z * Z)) :=
     let rem := full_amount mod d in                      (* line 465 *)
     Halt (divide_loop (Z.to_nat n) 0 quot rem).
 
+(** Closed form of [divide_funds] (proved equal for every uint64 amount and
+    [1 <= n < 2^64] in Proofs/DeployHelpers.v, [divide_funds_closed]); it does
+    not iterate [n] times, so the correspondence check can evaluate it for
+    receiver counts like [2^40] where the loop returns early. *)
+Definition share_of (q r j : Z) : Z := if j <? r then q + 1 else q.
+Definition divide_closed (amount n : Z) : list (Z * Z) :=
+  let q := amount / n in
+  let r := amount mod n in
+  let k := if q =? 0 then r else n in
+  map (fun j : nat => (Z.of_nat j, share_of q r (Z.of_nat j))) (seq 0 (Z.to_nat k)).
+
 (** * neoFSRuntimeTransactionModifier (deploy/deploy.go:665-686)
 
     [halt] is the VM state of the test invocation ([actor.DefaultCheckerModifier]
@@ -98,8 +109,10 @@ Definition shared_decode (b : bytes) : option shared :=
                       (be32_dec (drop (uint160_size + 4) b))).
 
 (** * SHA-256 (FIPS 180-4), on bytes. *)
-Definition add32 (a b : Z) : Z := (a + b) mod w32.
-Definition rotr (n x : Z) : Z := Z.lor (Z.shiftr x n) (Z.shiftl x (32 - n) mod w32).
+(* 32-bit words are kept in [0, 2^32) by masking ([Z.land _ (2^32-1)] = [_ mod 2^32]
+   on non-negative numbers, and much faster under [vm_compute]). *)
+Definition add32 (a b : Z) : Z := Z.land (a + b) 4294967295.
+Definition rotr (n x : Z) : Z := Z.lor (Z.shiftr x n) (Z.land (Z.shiftl x (32 - n)) 4294967295).
 Definition not32 (x : Z) : Z := Z.lxor x max_u32.
 Definition sha_ch (x y z : Z) : Z := Z.lxor (Z.land x y) (Z.land (not32 x) z).
 Definition sha_maj (x y z : Z) : Z := Z.lxor (Z.lxor (Z.land x y) (Z.land x z)) (Z.land y z).
@@ -195,6 +208,7 @@ Definition shared_matches (tx_nonce tx_vub : Z) (tx_signers : list bytes) (x : s
     it returned). *)
 Inductive hcase : Type :=
 | HDivide (amount n : Z) (got : list (Z * Z))
+| HDivideClosed (amount n : Z) (got : list (Z * Z))   (* huge n: compared with [divide_closed] *)
 | HDividePanic (amount n : Z)
 | HWindow (halt : bool) (h : Z) (got : option (Z * Z))
 | HBytes (x : shared) (got : bytes)
@@ -231,6 +245,9 @@ Definition check_hcase (c : hcase) : option val :=
       | Halt l => if list_eqb pair_eqb l got then None else Some (vpairs l)
       | Fault => Some VFault
       end
+  | HDivideClosed a n got =>
+      let l := divide_closed a n in
+      if list_eqb pair_eqb l got then None else Some (vpairs l)
   | HDividePanic a n =>
       match divide_funds a n with Fault => None | Halt l => Some (vpairs l) end
   | HWindow halt h got =>
